@@ -315,8 +315,8 @@ def rand_addr(rng):
     if k == "none":
         return ("addr", "none")
     if k == "ext":
-        ln = rng.choice([1, 2, 8, 9, 64, 255, 256, 511, rng.randrange(1, 512)])
-        return ("addr", "ext", ln, rng.choice([0, 1, (1 << ln) - 1, rng.randrange(1 << ln)]))
+        ln = rng.choice([0, 1, 2, 8, 9, 64, 255, 256, 511, rng.randrange(1, 512)])
+        return ("addr", "ext", ln, rng.choice([0, 1, (1 << ln) - 1, rng.randrange(1 << ln)]) if ln else 0)
     wc = rng.choice([0, -1, 127, -128, rng.randrange(-128, 128)])
     h = rng.randbytes(32).hex()
     if k == "std":
